@@ -4,7 +4,8 @@
 //! Code under test: `temporal_rs::tzdb::FsTzdbProvider` through the `TimeZoneProvider` trait.
 //! Sub-checks: `offset` (instant -> offset), `wall` (local date-time -> set of instants, directly and
 //! through the core with a recording wrapper), `ident` (check_identifier == Zone/Link names of
-//! tzdata.zi, ASCII case-insensitive), `history` (one provider over a sequence == fresh provider per query).
+//! tzdata.zi, ASCII case-insensitive), `history` (one provider over a sequence == fresh provider per query),
+//! `start-of-day` (every date whose midnight a listed transition skipped starts at that transition; all zones).
 //! `VERIF_C15_PYCHECK=1` additionally cross-checks the oracle against CPython `zoneinfo` on every
 //! whole-second point of the run (development aid, reported as a note, never part of the verdict).
 
@@ -12,6 +13,7 @@ pub mod model;
 pub mod tzif;
 
 use crate::chk;
+use crate::conv::err_str;
 use crate::refm::civil::{from_days, to_days};
 use crate::refm::tz::S;
 use crate::run::*;
@@ -26,7 +28,7 @@ use temporal_rs::options::{ArithmeticOverflow, Disambiguation};
 use temporal_rs::provider::{TimeZoneOffset, TimeZoneProvider, TransitionDirection};
 use temporal_rs::time::EpochNanoseconds;
 use temporal_rs::tzdb::FsTzdbProvider;
-use temporal_rs::{PlainDateTime, TemporalResult, TimeZone};
+use temporal_rs::{PlainDate, PlainDateTime, TemporalResult, TimeZone};
 use tzif::Oracle;
 
 pub const ZONEDIR: &str = "/usr/share/zoneinfo";
@@ -347,6 +349,88 @@ impl SubCheck for OffsetSub {
             out = out.fail(sig, format!("offset {want}"), format!("{got_off:?}"));
         }
         out
+    }
+}
+
+// ---------------------------------------------------------------------------------------------
+// sub-check: start of day on the dates whose midnight a listed transition skipped
+
+#[derive(Serialize, Deserialize, Debug, Clone)]
+pub struct SodCase {
+    pub zone: String,
+    /// the listed transition second whose skipped stretch of local time contains a midnight
+    pub t: i64,
+    /// days since 1970-01-01 of the date whose midnight is skipped
+    pub day: i64,
+}
+pub struct SodSub;
+
+/// every (zone, listed transition, date) for which the transition's skipped local stretch [t+before, t+after)
+/// contains the midnight of the date
+pub fn midnight_gap_cases(names: &[String]) -> Vec<SodCase> {
+    let mut out = vec![];
+    for z in names {
+        let Some(o) = oracle(z) else { continue };
+        let f = &o.file;
+        for (i, &t) in f.times.iter().enumerate() {
+            let before = if i == 0 { f.types[0].utoff } else { f.types[f.idx[i - 1]].utoff };
+            let after = f.types[f.idx[i]].utoff;
+            if after <= before {
+                continue;
+            }
+            let day = (t + before + 86_399).div_euclid(86_400);
+            if day * 86_400 < t + after && (-100_000_000..=100_000_000).contains(&day) {
+                out.push(SodCase { zone: z.clone(), t, day });
+            }
+        }
+    }
+    out
+}
+
+impl SubCheck for SodSub {
+    type Case = SodCase;
+    fn name(&self) -> &'static str {
+        "start-of-day"
+    }
+    fn eval(&self, c: &SodCase) -> Outcome {
+        let Some(o) = oracle(&c.zone) else {
+            return Outcome::pass().fail("C15/start-of-day/oracle-cannot-read-zone", "readable", c.zone.clone());
+        };
+        let mut out = classes_for_instant(Outcome::pass(), &o, c.t).nontrivial(true).class("midnight-skipped-by-listed-transition");
+        let is_last = o.file.times.last() == Some(&c.t);
+        if is_last {
+            out = out.class("midnight-skipped-by-the-last-listed-transition");
+        }
+        // what the data say, read by the oracle: no instant has this wall-clock reading, the offset changes at t
+        let midnight = c.day as i128 * 86_400 * S;
+        let t_ns = c.t as i128 * S;
+        if !o.instants(midnight).is_empty() || o.offset_at(t_ns) == o.offset_at(t_ns - 1) {
+            out.unjudged = true;
+            return out.class("start-of-day-unjudged:oracle-sees-no-gap-at-this-listing");
+        }
+        // the start of day builds on the provider's own answer for midnight: when that is not the empty set the data
+        // specify, the failure is the wall lookup's (signed as in the `wall` sub-check, listed there)
+        let wall = with_provider(&c.zone, |p| impl_instants(p, &c.zone, c.day * 86_400, 0));
+        if wall != Ans::Ok(vec![]) {
+            let sig = model::sign_wall(&o, c.day * 86_400, 0, &wall);
+            return out.fail(sig, "[] (midnight is skipped)", format!("{wall:?}"));
+        }
+        // the first instant of that local date is the transition itself (every local time from midnight up to the end
+        // of the skipped stretch does not exist)
+        let (y, m, d) = from_days(c.day);
+        let got = with_provider(&c.zone, |p| {
+            guard(|| {
+                let tz = TimeZone::try_from_identifier_str(&c.zone)?;
+                let date = PlainDate::try_new(y as i32, m, d, temporal_rs::Calendar::default())?;
+                date.to_zoned_date_time_with_provider(tz, None, p).map(|z| z.epoch_nanoseconds().as_i128())
+            })
+        });
+        match got {
+            Ok(Ok(v)) if v == t_ns => out,
+            Ok(Ok(v)) => out.fail("C15/start-of-day/midnight-gap/wrong-instant", format!("{t_ns} (the transition)"), format!("{v}")),
+            Ok(Err(e)) => out.fail(format!("C15/start-of-day/midnight-gap/{}", crate::conv::kind_name(e.kind())), format!("{t_ns} (the transition)"), err_str(&e)),
+            Err(p) => out.fail("C15/start-of-day/midnight-gap/panic", format!("{t_ns} (the transition)"), p),
+        }
     }
 }
 
@@ -891,12 +975,12 @@ fn footer_years(tier: Tier, seeded: &[i64]) -> Vec<i64> {
 
 pub fn run(ctx: &mut Ctx) {
     let d = db();
-    ctx.rule = "offset/wall: for every chosen zone every listed transition second s: s-1, s, s+1, s*1e9+-1 ns, s+-0.5 s, s+-1 h, s+-1 d, midpoints; before the first transition; fixed anchors (year 1, 1800, 1900, +-2^31, 2^32, 2038, 2100, 2400, 5000, 9999); rule-based footer transitions of the chosen years (quick: 2037-2070, every 11th year to 2500, century turns, seed-chosen years to 9999; thorough: every year 2037-2500 + 200 seed-chosen later years) with the same pattern plus the days of the rule's week and the hours of the rule's day; seed-chosen points near random transitions and uniform over years 1-9999; walls = the edges, middle and outside of every skipped/repeated stretch [s+min(a,b), s+max(a,b)) (+-1 s, +-1 ns) and the images of the instants. quick: ~100 fixed structurally diverse zones + seed-chosen rest to 120; thorough: all 598 names. non-trivial (offset, wall) = within 1 h of a transition, or before the first / after the last listed transition, or negative epoch, or the nearest transition is a negative-DST one or an offset change between two non-DST types, or wall inside a gap/overlap. ident: every name in 4 case variants + ~20 near misses each + directory entries that are not names; non-trivial = not byte-equal to a name. history: generated sequences of 2-16 queries over a pool of 1-3 names in up to 4 spellings (canonical, lower, upper, non-name) against one provider vs a fresh provider per query; non-trivial = some identifier repeats (exactly or up to case) and more than one identifier is used.".into();
+    ctx.rule = "offset/wall: for every chosen zone every listed transition second s: s-1, s, s+1, s*1e9+-1 ns, s+-0.5 s, s+-1 h, s+-1 d, midpoints; before the first transition; fixed anchors (year 1, 1800, 1900, +-2^31, 2^32, 2038, 2100, 2400, 5000, 9999); rule-based footer transitions of the chosen years (quick: 2037-2070, every 11th year to 2500, century turns, seed-chosen years to 9999; thorough: every year 2037-2500 + 200 seed-chosen later years) with the same pattern plus the days of the rule's week and the hours of the rule's day; seed-chosen points near random transitions and uniform over years 1-9999; walls = the edges, middle and outside of every skipped/repeated stretch [s+min(a,b), s+max(a,b)) (+-1 s, +-1 ns) and the images of the instants. quick: ~100 fixed structurally diverse zones + seed-chosen rest to 120; thorough: all 598 names. non-trivial (offset, wall) = within 1 h of a transition, or before the first / after the last listed transition, or negative epoch, or the nearest transition is a negative-DST one or an offset change between two non-DST types, or wall inside a gap/overlap. start-of-day: every (zone, listed transition, date) of the whole database whose skipped local stretch contains the date's midnight (3774 with tzdata 2025a), all non-trivial. ident: every name in 4 case variants + ~20 near misses each + directory entries that are not names; non-trivial = not byte-equal to a name. history: generated sequences of 2-16 queries over a pool of 1-3 names in up to 4 spellings (canonical, lower, upper, non-name) against one provider vs a fresh provider per query; non-trivial = some identifier repeats (exactly or up to case) and more than one identifier is used.".into();
     ctx.assumptions = vec![
         format!("the data are the TZif files of {ZONEDIR} (tzdata {}), read independently by props::c15::tzif (RFC 8536 3.2: type 0 before the first transition, the transition second belongs to the new type, footer after the last transition)", d.version),
         "names = Zone and Link names of tzdata.zi (597 judged; `Factory` executed but unjudged: a Zone line, but a placeholder that is not in the normaliser's source files and that ECMA-402 implementations omit); posix/, right/, posixrules, localtime and the .tab files of the directory are not names and must be rejected".into(),
         "IsoDateTime values are built through public API (Default + public fields + IsoTime::new + IsoDateTime::new); every 16th wall case is observed through PlainDateTime::to_zoned_date_time_with_provider with a recording wrapper instead".into(),
-        "candidate instants are compared as a sorted set (their order is C13's concern); of TimeZoneOffset only `.offset` is compared (transition_epoch is not part of the statement)".into(),
+        "candidate instants are compared as a sorted set (their order is C13's concern); of TimeZoneOffset only `.offset` is compared; `transition_epoch` is observed through what the crate does with it: the start of day (PlainDate::to_zoned_date_time_with_provider without a time) on every date whose midnight a listed transition skipped, all zones, must be that transition".into(),
         "offset and wall reuse one provider per (worker thread, zone) because the crate reads a zone file with ~3500 one-byte reads; a replayed case starts from a fresh provider; independence from earlier queries is decided by the history sub-check".into(),
     ];
     for p in &d.problems {
@@ -960,6 +1044,12 @@ pub fn run(ctx: &mut Ctx) {
     ctx.run_enum(&OffsetSub, n_ins, &|i| plan.offset_case(i), false);
     ctx.run_enum(&WallSub, n_wall, &|i| plan.wall_case(i, 16), false);
 
+    // ---- start of day on every date whose midnight a listed transition skipped, in every zone of the database (both
+    // tiers: some hundred cases), observed through PlainDate::to_zoned_date_time_with_provider
+    let sods = midnight_gap_cases(&d.names);
+    ctx.extra.insert("midnight_gap_dates".into(), json!(sods.len()));
+    ctx.run_enum(&SodSub, sods.len() as u64, &|i| sods[i as usize].clone(), false);
+
     // ---- identifiers
     let bits = sample_strategy(&any::<u64>(), seed ^ 3, 97);
     let ids = ident_cases(&bits);
@@ -1006,6 +1096,7 @@ pub fn replay(ctx: &mut Ctx, sub: &str, case: &Value) -> bool {
     match sub {
         "offset" => ctx.replay_case(&OffsetSub, case),
         "wall" => ctx.replay_case(&WallSub, case),
+        "start-of-day" => ctx.replay_case(&SodSub, case),
         "ident" => ctx.replay_case(&IdentSub, case),
         "history" => ctx.replay_case(&HistorySub, case),
         _ => false,
